@@ -129,6 +129,13 @@ def do_solve(st, op, radial_solver):
                 upper = upper + (upper[-1] * 1.1,)
         elif kind == 'upper_radius_list':
             upper = list(upper)
+        elif kind in ('top_boundary_inside_grid', 'top_boundary_above_grid'):
+            # the outermost layer's upper radius does not coincide with the last radial slice
+            r = args[0]
+            if kind == 'top_boundary_inside_grid' and r.size >= 6:
+                upper = tuple(upper[:-1]) + (float(r[-1 - (1 + mangle['which'] % 2)]),)
+            else:
+                upper = tuple(upper[:-1]) + (float(r[-1]) * 1.05,)
         elif kind in ('empty_interior_layer', 'upper_radius_not_increasing', 'first_upper_radius_zero'):
             # a layer structure whose tuples are consistent in length but describe a degenerate stack
             k = mangle['which'] % len(upper)
